@@ -256,6 +256,7 @@ fn check_one(ctx: &mut Ctx, db: &SimpleParserDatabase, src: &str, cfg: &Formatte
         Ok(Some(x)) => x,
     };
     ctx.count("formatted", 1);
+    ctx.sample(|| json!({"origin": origin(), "config": cfg_json(cfg), "input_prefix": src.chars().take(160).collect::<String>(), "output_prefix": o1.chars().take(160).collect::<String>()}));
     if o1 == src {
         ctx.count("already_formatted", 1);
     }
